@@ -96,8 +96,7 @@ func (n *TagNode) render(w *trimWriter, ctx nodeContext) Error {
 }
 
 func (n *TextNode) render(w *trimWriter, _ nodeContext) Error {
-	_, err := io.WriteString(w, n.Source)
-	return wrapRenderError(err, n)
+	return wrapRenderError(w.WriteText(n.Source), n)
 }
 
 func (n *TrimNode) render(w *trimWriter, _ nodeContext) Error {
